@@ -106,6 +106,7 @@ structure EInv (R : Router) (T : Str → Prop) : Prop where
   nostar : ∀ e ∈ denote R.tree, NoStar e.pat
   /-- no name outlives its route -/
   named : ∀ nm id, (nm, id) ∈ R.named → ∃ r, R.obj? id = some r ∧ (patStr r.syms, id) ∈ R.routes
+  nnodup : (R.named.map (·.1)).Nodup
   hnotok : ∀ enc, ∀ e ∈ hdenN enc R.tree, NoLitTok e.pat
   /-- every hook pair in the tree is the one the `hooks` index lists -/
   htree : ∀ enc, ∀ e ∈ hdenN enc R.tree, ¬ T (patStr e.pat) →
@@ -116,7 +117,7 @@ structure EInv (R : Router) (T : Str → Prop) : Prop where
   hnodup : (R.hookIdx.map (·.1)).Nodup
 
 theorem einv_init : EInv {} (fun _ => False) := by
-  refine ⟨inv_init, ?_, ?_, ?_, ?_, ?_, ?_⟩
+  refine ⟨inv_init, ?_, ?_, List.nodup_nil, ?_, ?_, ?_, ?_⟩
   · intro e he
     have : denote ({} : Router).tree = [] := by
       show denN Node.root = []
@@ -150,7 +151,7 @@ theorem Inv.of_eq {R R' : Router} (h : Inv R) (hwf : WFN R'.tree)
 theorem EInv.setObj {R : Router} {T : Str → Prop} (h : EInv R T) (id : Nat) (r r' : Route)
     (hr : R.obj? id = some r) (hs : r'.syms = r.syms) (hp : r'.params = r.params) :
     EInv (R.setObj id r') T := by
-  refine ⟨h.inv.setObj id r r' hr hs hp, h.nostar, ?_, h.hnotok, h.htree, h.hidx, h.hnodup⟩
+  refine ⟨h.inv.setObj id r r' hr hs hp, h.nostar, ?_, h.nnodup, h.hnotok, h.htree, h.hidx, h.hnodup⟩
   intro nm j hmem
   obtain ⟨r0, hr0, hin⟩ := h.named nm j hmem
   rw [obj?_setObj]
@@ -165,7 +166,8 @@ theorem EInv.registerName {R : Router} {T : Str → Prop} (h : EInv R T) (a : Ad
     EInv (R.registerName a id).1 T := by
   have key : ∀ nm, EInv ({ R with named := dictSet R.named nm id } : Router) T := by
     intro nm
-    refine ⟨h.inv.of_eq h.inv.wf (fun _ => Iff.rfl) rfl rfl, h.nostar, ?_, h.hnotok, h.htree, h.hidx, h.hnodup⟩
+    refine ⟨h.inv.of_eq h.inv.wf (fun _ => Iff.rfl) rfl rfl, h.nostar, ?_, dictSet_keys_nodup _ _ _ h.nnodup,
+      h.hnotok, h.htree, h.hidx, h.hnodup⟩
     intro nm' j hmem
     rcases (mem_dictSet _ _ _ _ _).mp hmem with ⟨_, rfl⟩ | ⟨_, hmem⟩
     · exact hid
@@ -257,7 +259,7 @@ theorem EInv.findOrInsert {R : Router} {T : Str → Prop} (h : EInv R T) (rule :
           exact hsy this.1
       have hnewobj : (R.objs ++ [({ rule := rule, syms := p.syms, params := p.params, symsOut := p.symsOut } : Route)])[R.objs.length]? =
           some { rule := rule, syms := p.syms, params := p.params, symsOut := p.symsOut } := by simp
-      refine ⟨⟨hinv', ?_, ?_, ?_, ?_, ?_, h.hnodup⟩, ?_⟩
+      refine ⟨⟨hinv', ?_, ?_, h.nnodup, ?_, ?_, ?_, h.hnodup⟩, ?_⟩
       · intro e he
         rcases (hden e).mp he with rfl | ⟨he, _⟩
         · exact hs
@@ -315,12 +317,13 @@ theorem EInv.drop {R : Router} {T : Str → Prop} (h : EInv R T) (T' : Str → P
     (hhA : ∀ enc e, e ∈ hdenN enc R'.tree → e ∈ hdenN enc R.tree)
     (hhB : ∀ enc e, e ∈ hdenN enc R.tree → ¬ T' (patStr e.pat) → e ∈ hdenN enc R'.tree)
     (hnamed : ∀ nm id, (nm, id) ∈ R'.named →
-      (nm, id) ∈ R.named ∧ ∀ r, R.obj? id = some r → keep (patStr r.syms) = true) :
+      (nm, id) ∈ R.named ∧ ∀ r, R.obj? id = some r → keep (patStr r.syms) = true)
+    (hnn : (R'.named.map (·.1)).Nodup) :
     EInv R' T' := by
   have hobj : ∀ j, R'.obj? j = R.obj? j := fun j => by unfold Router.obj?; rw [hobjs]
   refine ⟨⟨hwf, ?_, ?_, by rw [hroutes]; exact nodup_filter_keys _ _ h.inv.nodup,
       fun e he => h.inv.notok e ((hden e).mp he).1⟩,
-    fun e he => h.nostar e ((hden e).mp he).1, ?_, fun enc e he => h.hnotok enc e (hhA enc e he), ?_, ?_,
+    fun e he => h.nostar e ((hden e).mp he).1, ?_, hnn, fun enc e he => h.hnotok enc e (hhA enc e he), ?_, ?_,
     by rw [hhook]; exact h.hnodup⟩
   · intro e
     rw [hden e, h.inv.den e, mem_rules, mem_rules]
@@ -449,7 +452,7 @@ hook patterns at or below the prefix unspecified -/
 theorem EInv.removePattern {R : Router} {T : Str → Prop} (h : EInv R T) (pat : List Sym)
     (hp : NoLitTok pat) : EInv (R.removePattern pat).1 (taintRemove pat T) := by
   have hT0 : EInv R (taintRemove pat T) :=
-    ⟨h.inv, h.nostar, h.named, h.hnotok, fun enc e he hT => h.htree enc e he (fun h0 => hT (Or.inl h0)),
+    ⟨h.inv, h.nostar, h.named, h.nnodup, h.hnotok, fun enc e he hT => h.htree enc e he (fun h0 => hT (Or.inl h0)),
       fun enc ps hp' hm hT => h.hidx enc ps hp' hm (fun h0 => hT (Or.inl h0)), h.hnodup⟩
   unfold Router.removePattern
   cases hr : treeRemove R.tree pat false with
@@ -464,6 +467,7 @@ theorem EInv.removePattern {R : Router} {T : Str → Prop} (h : EInv R T) (pat :
     | true =>
       simp only [if_true]
       refine h.drop (taintRemove pat T) (fun _ => Or.inl) (keepOf pat) _ ?_ rfl rfl hw hden hhA hhB ?_
+        (nodup_filter_keys _ _ h.nnodup)
       · show List.filter _ R.routes = _
         rw [hkeep]; simp only [if_true]
       · intro nm id hmem
@@ -485,6 +489,7 @@ theorem EInv.removePattern {R : Router} {T : Str → Prop} (h : EInv R T) (pat :
     | false =>
       simp only [Bool.false_eq_true, if_false]
       refine h.drop (taintRemove pat T) (fun _ => Or.inl) (keepOf pat) _ ?_ rfl rfl hw hden hhA hhB ?_
+        (nodup_filter_keys _ _ h.nnodup)
       · show dictPop R.routes (patStr p) = _
         rw [hkeep]; simp only [Bool.false_eq_true, if_false]; rfl
       · intro nm id hmem
@@ -496,7 +501,7 @@ theorem EInv.removePattern {R : Router} {T : Str → Prop} (h : EInv R T) (pat :
 
 theorem EInv.mono {R : Router} {T T' : Str → Prop} (h : EInv R T) (hT : ∀ ps, T ps → T' ps) :
     EInv R T' :=
-  ⟨h.inv, h.nostar, h.named, h.hnotok, fun enc e he hT' => h.htree enc e he (fun h0 => hT' (hT _ h0)),
+  ⟨h.inv, h.nostar, h.named, h.nnodup, h.hnotok, fun enc e he hT' => h.htree enc e he (fun h0 => hT' (hT _ h0)),
     fun enc ps hp' hm hT' => h.hidx enc ps hp' hm (fun h0 => hT' (hT _ h0)), h.hnodup⟩
 
 theorem EInv.removeRule {R : Router} {T : Str → Prop} (h : EInv R T) (cenv : CompileEnv) (rule : Str)
@@ -522,7 +527,8 @@ theorem EInv.removeName {R : Router} {T : Str → Prop} (h : EInv R T) (name : S
     simp only
     have h1 : EInv ({ R with named := dictPop R.named name } : Router) T :=
       ⟨h.inv.of_eq h.inv.wf (fun _ => Iff.rfl) rfl rfl, h.nostar,
-        fun nm j hm => h.named nm j ((mem_dictPop _ _ _).mp hm).1, h.hnotok, h.htree, h.hidx, h.hnodup⟩
+        fun nm j hm => h.named nm j ((mem_dictPop _ _ _).mp hm).1, nodup_filter_keys _ _ h.nnodup,
+        h.hnotok, h.htree, h.hidx, h.hnodup⟩
     obtain ⟨r, hr, hroute⟩ := h.named name id (dictGet_mem hg)
     have hr1 : ({ R with named := dictPop R.named name } : Router).obj? id = some r := hr
     simp only [hr1]
@@ -549,6 +555,7 @@ theorem EInv.removeName {R : Router} {T : Str → Prop} (h : EInv R T) (name : S
         · cases hf
       refine EInv.mono ?_ hT
       refine h1.drop (taintRemove r.syms T) (fun _ => Or.inl) (keepOf r.syms) _ ?_ rfl rfl hw hden hhA hhB ?_
+        (nodup_filter_keys _ _ h1.nnodup)
       · show dictPop R.routes r.pattern = _
         rw [hkeep]; rfl
       · intro nm j hmem
@@ -612,7 +619,7 @@ theorem EInv.hookUpdate {R : Router} {T : Str → Prop} (h : EInv R T) (p : Pars
       rw [List.any_eq_true]
       exact ⟨_, hmem, by simp [hEq]⟩
   refine ⟨h.inv.of_eq hw (fun e => by show e ∈ denN t ↔ _; rw [hden]; rfl) rfl rfl,
-    fun e he => h.nostar e (by show e ∈ denN R.tree; rw [← hden]; exact he), h.named, ?_, ?_, ?_, ?_⟩
+    fun e he => h.nostar e (by show e ∈ denN R.tree; rw [← hden]; exact he), h.named, h.nnodup, ?_, ?_, ?_, ?_⟩
   · intro enc e he
     rcases (hspec enc).2.2.2.2.1 e he with ⟨ho, _⟩ | ⟨hs, _⟩
     · exact h.hnotok enc e ho
@@ -660,7 +667,7 @@ theorem EInv.hookFresh {R : Router} {T : Str → Prop} (h : EInv R T) (p : Parse
     have hs := shape_eq_of_patStr (h.hnotok enc e he) hp hEq
     obtain ⟨hpx, hx, _⟩ := (findN_hooks enc R.tree h.inv.wf p.syms).1 e he hs
     rw [hh] at hx; cases hx
-  refine ⟨h.inv.of_eq hw hden rfl rfl, fun e he => h.nostar e ((hden e).mp he), h.named, ?_, ?_, ?_,
+  refine ⟨h.inv.of_eq hw hden rfl rfl, fun e he => h.nostar e ((hden e).mp he), h.named, h.nnodup, ?_, ?_, ?_,
     dictSet_keys_nodup _ _ _ h.hnodup⟩
   · intro enc e he
     rcases ((hspec enc).2.2 e).mp he with rfl | ⟨ho, _⟩
@@ -768,7 +775,7 @@ theorem EInv.removeHook {R : Router} {T : Str → Prop} (h : EInv R T) (cenv : C
     | error e =>
       simp only
       have hstar : (starSplit p.syms).2 = true := treeRemove_hooksOnly_error htr
-      refine ⟨h.inv, h.nostar, h.named, h.hnotok, fun enc e he hT => h.htree enc e he (fun h0 => hT ⟨h0, Or.inl hstar⟩),
+      refine ⟨h.inv, h.nostar, h.named, h.nnodup, h.hnotok, fun enc e he hT => h.htree enc e he (fun h0 => hT ⟨h0, Or.inl hstar⟩),
         fun enc ps hp' hm hT => h.hidx enc ps hp' hm (fun h0 => hT ⟨h0, Or.inl hstar⟩), h.hnodup⟩
     | ok t =>
       simp only
@@ -780,7 +787,7 @@ theorem EInv.removeHook {R : Router} {T : Str → Prop} (h : EInv R T) (cenv : C
         fun e => ⟨fun he => (hrR.1 e he).1, fun he => hrR.2 e he (fun hk => by cases hk.1)⟩
       have hrH := fun enc => (treeRemove_spec (ownH_ok enc) (ownH_clear enc) R.tree h.inv.wf p.syms true t htr).2
       simp only [hstar, remMode, Bool.false_eq_true, if_false, if_true, eraseOf] at hrH
-      refine ⟨h.inv.of_eq hw hden rfl rfl, fun e he => h.nostar e ((hden e).mp he), h.named, ?_, ?_, ?_,
+      refine ⟨h.inv.of_eq hw hden rfl rfl, fun e he => h.nostar e ((hden e).mp he), h.named, h.nnodup, ?_, ?_, ?_,
         nodup_filter_keys _ _ h.hnodup⟩
       · intro enc e he; exact h.hnotok enc e ((hrH enc).1 e he).1
       · intro enc e he hT
